@@ -6,7 +6,8 @@
 From Coq Require Import ZArith List Bool Permutation.
 From Batchie Require Import Lib.Sexp Model.Encode Model.Screen Model.Retro Model.Pairwise Model.RetroHoldout
   Model.RetroInit Proofs.C11Lib Proofs.C11Gen Proofs.C11Smooth Proofs.C11Select Proofs.C11Holdout Proofs.C11Init
-  Generated.SrcRetro Proofs.C11Source Proofs.C13SampleSeg Proofs.C13SparseTerm Generated.SrcRetroGen Proofs.C13Source Proofs.C13SourcePairwise.
+  Generated.SrcRetro Proofs.C11Source Proofs.C11Source_Holdout Proofs.C13SampleSeg Proofs.C13SparseTerm Generated.SrcRetroGen Proofs.C13Source
+  Proofs.C13Source_Holdout Proofs.C13SourcePairwise.
 Import ListNotations.
 
 (* ---- the models are what the source says NOW ----
